@@ -16,11 +16,22 @@ const WORDS: [&str; 16] = ["", "x", "a=b", "é", "=", " lead", "trail ", "日本
     "https://example.org/?a=b&c=d", "\t", "A"];
 
 pub fn text(rng: &mut Rng) -> String {
-    if rng.chance(3, 4) {
+    // scale: a value longer than a line buffer / a 16-bit length
+    if rng.chance(1, 3000) {
+        let n = threshold(rng, 70000);
+        let mut t = "v".repeat(n / 2);
+        t.push_str(rng.pick_str(&["", "=", "é", " ", "\u{10fffd}"]));
+        t.push_str(&"w".repeat(n - n / 2));
+        return t;
+    }
+    let t: String = if rng.chance(3, 4) {
         rng.pick_str(&WORDS).to_string()
     } else {
         (0..rng.range(0, 12)).map(|_| *rng.pick(&['a', 'Z', '0', ' ', '=', 'é', '-', '.', '/', '日', '\u{85}', '💖', '\t'])).collect()
-    }
+    };
+    // rare values: Unicode blanks, a byte order mark, last-plane characters, ... (never a line break)
+    let t2 = sprinkle(rng, &t, 12);
+    if t2.contains(['\n', '\r']) { t } else { t2 }
 }
 pub fn int(rng: &mut Rng) -> i64 {
     match rng.below(6) {
@@ -43,7 +54,8 @@ pub fn entry_values(rng: &mut Rng) -> Vec<Vec<String>> {
             }
             match kind {
                 'I' => vec![format!("{}", int(rng))],
-                'A' => (0..rng.range(1, 3)).map(|_| text(rng)).collect(),
+                // scale: more lines than a small table holds
+                'A' => (0..if rng.chance(1, 2000) { threshold(rng, 1100) } else { rng.range(1, 3) }).map(|_| text(rng)).collect(),
                 _ => vec![text(rng)],
             }
         })
@@ -117,19 +129,26 @@ pub fn faulty_text(rng: &mut Rng) -> String {
             break;
         }
         let i = rng.below(lines.len());
-        match rng.below(9) {
+        match rng.below(13) {
             0 => { lines.remove(i); }
             1 => { let l = lines[i].clone(); lines.insert(rng.below(lines.len() + 1), l); }
             2 => { lines[i] = lines[i].replacen('=', "", 1); }
             3 => { lines[i] = lines[i].to_lowercase(); }
             4 => { lines[i] = format!("X{}", lines[i]); }
             5 => { lines.insert(i, rng.pick_str(&["", "GARBAGE", " ", "=x", "FILE_SIZE=abc", "SIZE_PKG=", "SIZE_PKG=1.5", "FILE_SIZE=+7", "SIZE_PKG=-0", "FILE_SIZE=99999999999999999999"]).to_string()); }
+            // numbers at and beyond the limits of the integer types
+            9 => { lines.insert(i, format!("{}={}", rng.pick_str(&["FILE_SIZE", "SIZE_PKG"]), limit_number(rng))); }
+            // a name (known, misspelt or unknown) longer than a fixed-size scan window; rare characters before a name
+            10 => { let k = threshold(rng, 5000); lines.insert(i, format!("{}{}={}", rng.pick_str(&["X", "COMMENT", "", "PKGNAME_"]), "N".repeat(k), text(rng))); }
+            11 => { lines[i] = format!("{}{}", rare_char(rng), lines[i]); }
+            12 => { let c = rare_char(rng); if let Some((a, b)) = lines[i].clone().split_once('=') { lines[i] = format!("{}{}={}", a, c, b); } }
             6 => { let name = NAMES[rng.below(23)].0; lines.push(format!("{}={}", name, text(rng))); }
             7 => { let name = NAMES[rng.below(23)].0; lines.retain(|l| !l.starts_with(&format!("{}=", name))); }
             _ => { lines[i] = format!("{} ", lines[i].replacen('=', " =", 1)); }
         }
     }
     let mut t = lines.join("\n");
+    if rng.chance(1, 40) { t.insert(0, *rng.pick(&['\u{feff}', '\u{200b}', '\u{a0}', ' '])); }
     if rng.chance(3, 4) { t.push('\n'); }
     if rng.chance(1, 10) { t = t.replace('\n', "\r\n"); }
     t
@@ -138,11 +157,19 @@ pub fn faulty_text(rng: &mut Rng) -> String {
 /// a stream of 1..3 entries, each followed by a blank line; `bad`: Some(kind) injects one
 /// malformed entry at a random position
 pub fn stream(rng: &mut Rng, bad: Option<usize>) -> Vec<u8> {
-    let n = rng.range(1, 3);
+    stream_n(rng, bad, 0)
+}
+/// `many` > 0: that many entries (scale: more bytes than a buffer holds)
+pub fn stream_n(rng: &mut Rng, bad: Option<usize>, many: usize) -> Vec<u8> {
+    let n = if many > 0 { many } else { rng.range(1, 3) };
     let badpos = rng.below(n);
     let mut out: Vec<u8> = vec![];
     for i in 0..n {
-        let vals = entry_values(rng);
+        let mut vals = entry_values(rng);
+        if many > 0 {
+            // the scale here is the number of records; single values stay short
+            for v in vals.iter_mut() { v.truncate(3); for x in v.iter_mut() { if x.len() > 200 { *x = "x".into(); } } }
+        }
         let mut t = canonical_text(&vals).into_bytes();
         if let (Some(kind), true) = (bad, i == badpos) {
             match kind {
@@ -183,6 +210,35 @@ impl StreamPlan {
         let mut round = 0;
         while q.len() < want {
             let bad = if round % 3 == 2 { Some((round / 3) % 6) } else { None };
+            // scale: every 5th stream is large (more than 8 KiB, or more than 64 KiB of records);
+            // a few partitions only: whole, buffer-sized pieces, small pieces, a cut near the end
+            if round % 5 == 1 {
+                let many = if (round / 5) % 2 == 0 { 200usize } else { 30 };
+                let s = stream_n(rng, if round % 2 == 0 { Some(round % 6) } else { None }, many);
+                let l = s.len();
+                q.push(json!({"chunks": cut(&s, &[])}));
+                for size in if many == 30 { vec![300usize, 8192] } else { vec![8193usize, 65536] } {
+                    q.push(json!({"chunks": cut(&s, &(1..l).filter(|i| i % size == 0).collect::<Vec<_>>())}));
+                }
+                q.push(json!({"chunks": cut(&s, &[rng.range(1, l - 1), l - 2])}));
+                round += 1;
+                continue;
+            }
+            // scale: one record larger than 64 KiB, full of multi-byte characters, so that many
+            // writes end inside a character while nothing is complete yet
+            if round % 5 == 3 {
+                let mut vals = entry_values(rng);
+                for v in vals.iter_mut() { v.truncate(2); for x in v.iter_mut() { if x.len() > 200 { *x = "x".into(); } } }
+                vals[5] = (0..2600).map(|k| format!("d\u{e9}j\u{e0} \u{65e5}\u{672c} {} \u{10fffd}", k)).collect();
+                let mut s = canonical_text(&vals).into_bytes();
+                s.push(b'\n');
+                let l = s.len();
+                for size in [997usize, 4099] {
+                    q.push(json!({"chunks": cut(&s, &(1..l).filter(|i| i % size == 0).collect::<Vec<_>>())}));
+                }
+                round += 1;
+                continue;
+            }
             let s = stream(rng, bad);
             let l = s.len();
             q.push(json!({"chunks": cut(&s, &[])}));                            // one call
